@@ -22,7 +22,7 @@ grep -q "=> $WT" $SIM/go.mod || { echo "could not repoint go.mod"; exit 2; }
 mkdir -p $SIM/bin
 if ! (cd $SIM && go build -tags verif -o $SIM/bin/walsim ./cmd/walsim) > $SIM/build.log 2>&1; then echo "BUILD FAILED"; tail -20 $SIM/build.log; exit 2; fi
 RACEARG=""
-if [ "$PROP" = C06 ]; then
+if [ "$PROP" = C06 ] || [ "$PROP" = C14 ]; then
   (cd $SIM && go build -race -tags "verif edgefree" -gcflags='verif/sim/...=-race=false' -o $SIM/bin/walsim-race ./cmd/walsim) >> $SIM/build.log 2>&1 || { echo "RACE BUILD FAILED"; tail -20 $SIM/build.log; exit 2; }
   RACEARG="-racebin $SIM/bin/walsim-race"
 fi
